@@ -214,6 +214,7 @@ func c08(c *Ctx) (*report.Result, error) {
 	res.RuleDoc["O8.6"] = "registration bookkeeping cannot wedge itself: inside a critical section of any mutex of the shard manager, the intra-proxy manager or the stream structs no call acquires the same (non-reentrant) mutex again, and these mutexes nest in one order"
 	res.RuleDoc["O8.7"] = "no worker outlives its latch: every back-off loop (a cycle through time.Sleep) of package proxy re-checks a shutdown latch / context, or a deadline, on every way round - a retry loop that only looks at the latch in one branch keeps its goroutine alive for ever once the thing it waits for is gone"
 	res.RuleDoc["O8.9"] = "registry keys are injective: ClusterShardIDtoShortString, the key of the local-shard table, renders both the cluster id and the shard id, separated by a non-digit - two different shards (1:12 / 11:2, or the same shard number of two clusters) never share an entry"
+	res.RuleDoc["O8.10"] = "every registration triggers the watermark replay: RegisterShard calls onLocalShardChange(shard, true) on every path after addLocalShard (only a nil callback is skipped) - the callback is what replays the pending watermark to the newly registered incarnation, also when the predecessor's entry is still there"
 	res.RuleDoc["O8.5"] = "identity tokens are fresh per registration: the time RegisterShard hands back is time.Now() of that very call and is what the stored entry carries, on every path (two incarnations can never share a token)"
 	res.RuleDoc["O8.2"] = "sends on a closable channel are recover-guarded: every send on a chan RoutedMessage (the only registered channel type its owner closes) lies in a function with a deferred recover()"
 	res.RuleDoc["O8.3"] = "successor evicts before it registers: the receiver terminates its predecessor before registering its own channel/cancel/receiver; the sender registers its delivery channel before announcing ownership"
@@ -393,6 +394,7 @@ func c08(c *Ctx) (*report.Result, error) {
 		}, proxyLockAllowed)
 	}
 	checkShardKeyFunction(c, res, "O8.9")
+	checkRegistrationNotifies(c, res, "O8.10")
 	return res, nil
 }
 
@@ -800,4 +802,53 @@ func checkShardKeyFunction(c *Ctx, res *report.Result, rule string) {
 		}
 	}
 	res.Check(ok, rule, "ClusterShardIDtoShortString renders cluster id and shard id unambiguously", fnPos(c.Prog, f), "%d<sep>%d of ClusterID, ShardID", why)
+}
+
+// checkRegistrationNotifies: see O8.10.
+func checkRegistrationNotifies(c *Ctx, res *report.Result, rule string) {
+	f := resolve(c, res, rule, anchor{"proxy", "*shardManagerImpl", "RegisterShard"})
+	if f == nil {
+		return
+	}
+	adds := flow.FindCalls(f, func(cc *ssa.CallCommon) bool { return flow.IsCallTo(cc, proxyPkg, "shardManagerImpl", "addLocalShard") })
+	if len(adds) != 1 {
+		res.Undec(rule, "RegisterShard: addLocalShard call", fnPos(c.Prog, f), fmt.Sprintf("%d calls", len(adds)))
+		return
+	}
+	isNotify := func(x ssa.Instruction) bool {
+		call, ok := x.(ssa.CallInstruction)
+		if !ok {
+			return false
+		}
+		cc := call.Common()
+		if cc.IsInvoke() || flow.StaticCallee(cc) != nil {
+			return false
+		}
+		_, fld, okf := flow.FieldLoadOf(flow.ResolveLoad(cc.Value))
+		if !okf || fld != "onLocalShardChange" || len(cc.Args) != 2 {
+			return false
+		}
+		v, isC := flow.ConstBool(cc.Args[1])
+		return isC && v
+	}
+	nilCallback := func(a, b *ssa.BasicBlock) bool {
+		for _, g := range flow.EdgeGuards(a, b) {
+			if g.Cond == nil {
+				continue
+			}
+			k := classifyCond(g.Cond, g.Side)
+			if k.kind == "nil" && k.arg == "onLocalShardChange" && k.truth {
+				return true
+			}
+		}
+		return false
+	}
+	r := flow.FindPath(flow.After(adds[0]), flow.IsReturn, isNotify, func(a, b *ssa.BasicBlock) bool {
+		iff := lastIfOf(a)
+		if iff == nil {
+			return true
+		}
+		return !nilCallback(a, b)
+	})
+	res.Check(!r.Found, rule, "RegisterShard: every registration notifies onLocalShardChange(shard, true)", instrPos(c.Prog, adds[0]), "no path from addLocalShard to a return skips the callback (except a nil callback)", "a registration can complete without notifying the listeners (path "+flow.BlockPath(r.Via)+"): the pending watermark is not replayed to the stream that has just registered - e.g. a reconnect while the predecessor's entry is still present - so an idle target never learns the source's progress")
 }
